@@ -263,7 +263,7 @@ def check_rejection(case):
 
 SHARDS = {"quick": 8, "thorough": 16}
 ORACLES = [
-    Oracle("null_forcing", null_case(), check_null, classify=classify_null, quick=96, thorough=400, shrink_seconds=180),
+    Oracle("null_forcing", null_case(), check_null, classify=classify_null, quick=160, thorough=1200, shrink_seconds=180),
     Oracle("ordinal_grid", drexcase.rate_case(6, 4), check_ordinals, quick=24, thorough=60),
-    Oracle("failed_update", reject_case(), check_rejection, classify=lambda c: c["how"], quick=80, thorough=400, shrink_seconds=120),
+    Oracle("failed_update", reject_case(), check_rejection, classify=lambda c: c["how"], quick=120, thorough=1200, shrink_seconds=120),
 ]
